@@ -296,6 +296,69 @@ def respell_targets(data: bytes, style: str = "mixed", seed: int = 0) -> bytes:
     return write_members(out)
 
 
+def layout_logo(data: bytes, k: int = 0, seed: int = 0) -> bytes:
+    """A template with a logo: a picture on slide layout number k (modulo), whose image part nothing else refers to."""
+    from . import gens
+    P = "{http://schemas.openxmlformats.org/presentationml/2006/main}"
+    A = "{http://schemas.openxmlformats.org/drawingml/2006/main}"
+    members = read_members(data)
+    names = [n for n, _ in members]
+    layouts = sorted((n for n in names if re.match(r"^ppt/slideLayouts/slideLayout\d+\.xml$", n)), key=lambda n: int(re.findall(r"\d+", n)[-1]))
+    if not layouts:
+        return data
+    lay = layouts[k % len(layouts)]
+    nums = [int(m.group(1)) for n in names for m in [re.match(r"^ppt/media/image(\d+)\.\w+$", n)] if m]
+    img_name = "ppt/media/image%d.png" % (max(nums or [0]) + 1)
+    img = gens.image_bytes({"fmt": "PNG", "w": 9, "h": 7, "seed": 7000 + seed, "mode": "RGB", "dpi": None})
+    rels_name = lay.replace("slideLayouts/", "slideLayouts/_rels/") + ".rels"
+    out = []
+    rid = None
+    for n, b in members:
+        if n == rels_name:
+            root = refpkg.parse(b)
+            used = {el.get("Id") for el in root if isinstance(el.tag, str)}
+            i = 1
+            while "rId%d" % i in used:
+                i += 1
+            rid = "rId%d" % i
+            el = etree.SubElement(root, "{%s}Relationship" % refpkg.NS_REL)
+            el.set("Id", rid)
+            el.set("Type", "http://schemas.openxmlformats.org/officeDocument/2006/relationships/image")
+            el.set("Target", "../media/" + img_name.rpartition("/")[2])
+            b = etree.tostring(root, xml_declaration=True, encoding="UTF-8", standalone=True)
+        out.append((n, b))
+    if rid is None:
+        return data
+    out2 = []
+    for n, b in out:
+        if n == lay:
+            root = refpkg.parse(b)
+            tree = root.find(P + "cSld/" + P + "spTree")
+            ids = [int(v) for v in root.xpath("//@id") if str(v).isdigit()]
+            pic = etree.fromstring(
+                '<p:pic xmlns:p="%s" xmlns:a="%s" xmlns:r="%s"><p:nvPicPr><p:cNvPr id="%d" name="Logo"/><p:cNvPicPr/><p:nvPr userDrawn="1"/></p:nvPicPr>'
+                '<p:blipFill><a:blip r:embed="%s"/><a:stretch><a:fillRect/></a:stretch></p:blipFill>'
+                '<p:spPr><a:xfrm><a:off x="100000" y="100000"/><a:ext cx="300000" cy="200000"/></a:xfrm><a:prstGeom prst="rect"><a:avLst/></a:prstGeom></p:spPr></p:pic>'
+                % (P[1:-1], A[1:-1], R_NS[1:-1], max(ids or [1]) + 1, rid))
+            kids = [e for e in tree if isinstance(e.tag, str)]
+            tree.insert(list(tree).index(kids[-1]) + 1 if len(kids) > 2 else len(tree), pic)
+            if tree[-1].tag == P + "extLst" and tree[-1] is not pic:
+                tree.remove(pic)
+                tree[-1].addprevious(pic)
+            b = etree.tostring(root, xml_declaration=True, encoding="UTF-8", standalone=True)
+        elif n == "[Content_Types].xml":
+            root = refpkg.parse(b)
+            if not any(isinstance(e.tag, str) and (e.get("Extension") or "").lower() == "png" for e in root):
+                d = etree.Element("{%s}Default" % refpkg.NS_CT)
+                d.set("Extension", "png")
+                d.set("ContentType", "image/png")
+                root.insert(0, d)
+                b = etree.tostring(root, xml_declaration=True, encoding="UTF-8", standalone=True)
+        out2.append((n, b))
+    out2.append((img_name, img))
+    return write_members(out2)
+
+
 def unlist_slide(data: bytes, k: int = 0) -> bytes:
     """A slide taken out of p:sldIdLst whose relationship and part stay behind (what several tools leave after "deleting" a slide):
     the listed slides' part names are then non-contiguous in presentation order."""
@@ -491,6 +554,8 @@ def apply(data: bytes, x: dict) -> bytes:
         return rewrite_slides(data, x.get("how", "strip_tblPr"))
     if kind == "drop_notes_master_rel":
         return drop_notes_master_rel(data)
+    if kind == "layout_logo":
+        return layout_logo(data, x.get("k", 0), x.get("seed", 0))
     if kind == "respell_targets":
         return respell_targets(data, x.get("style", "mixed"), x.get("seed", 0))
     if kind == "unlist_slide":
